@@ -31,6 +31,11 @@ type Config struct {
 	LeftRec bool
 	// LeftRecDirect restricts LeftRec to directly left-recursive rules.
 	LeftRecDirect bool
+	// LeftRecRunnable leaves out the shape with a nullable prefix before the
+	// recursive reference: pigeon accepts it with -support-left-recursion but
+	// the generated parser recurses without bound on every input (observation
+	// O3), so it is only used where parsers are generated and never run.
+	LeftRecRunnable bool
 	// StateBias puts state blocks in front of likely failure points.
 	StateBias bool
 	// Unused adds rules that nothing references; Undefined adds references to
@@ -540,6 +545,8 @@ func generateLR(c *gctx) *Grammar {
 	shape := c.r.Intn(6)
 	if c.cfg.LeftRecDirect {
 		shape = []int{0, 2, 5}[c.r.Intn(3)]
+	} else if c.cfg.LeftRecRunnable {
+		shape = []int{0, 1, 2, 3, 5}[c.r.Intn(5)]
 	}
 	switch shape {
 	case 0: // A <- A op B / B
